@@ -164,6 +164,9 @@ def run_program(prog, prefix, opts=None):
     s.release_points = bool(opts.get("release_points"))
     s.spurious_left = int(opts.get("spurious", 0))
     s.record_trace = bool(opts.get("trace"))
+    if opts.get("lines"):
+        s.line_files = (LOCK_SRC,)
+        s.max_steps = 20000
     kernel = schedx.Kernel()
     mon = Monitor(kernel)
     kernel.listeners.append(mon.check_kernel)
@@ -389,6 +392,15 @@ def programs(tier):
     # (f) two processes x two threads
     out.append(("2p2t", [(0, [R()]), (0, [W()]), (1, [R()]), (1, [W()])], 1 if tier == "quick" else 2, {}))
     out.append(("2p2t", [(0, [W()]), (0, [W(path="q")]), (1, [W()]), (1, [W(path="q")])], 1 if tier == "quick" else 2, {}))
+    # (g) line granularity: every source line of lock.py is a scheduling point (finds accesses that are not protected by
+    #     any lock, which the synchronisation-level exploration cannot interleave); one preemption
+    for a, b in ((R(), R()), (R(), W()), (W(), W()), (R(blocking=False), W()), (R(kids=[R(reentrant=True)]), R())):
+        out.append(("lines-2t", [(0, [a]), (0, [b])], 1, {"lines": True}))
+    out.append(("lines-2p", [(0, [R()]), (1, [W()])], 1, {"lines": True}))
+    if tier == "thorough":
+        for a, b in itertools.combinations_with_replacement(others, 2):
+            out.append(("lines-2t", [(0, [a, b]), (0, [W()])], 1, {"lines": True}))
+            out.append(("lines-2t2", [(0, [a]), (0, [b])], 2, {"lines": True}))
     if tier == "thorough":
         reqs2 = all_reqs(("p", "q"))
         base = [R(), W(), R(blocking=False), W(reentrant=True), R(reentrant=True)]
@@ -474,7 +486,8 @@ def run_shard(shard, tier):
     res["capped"] = capped
     # differential binding of the shims to the implementation: the same program on the unmodified module with
     # real threads; its terminal outcome must be one the explorer enumerated
-    if all(pid == 0 for pid, _ in prog) and not any(l in ("deadlock", "inherent-deadlock") for l in labels) and not opts:
+    if all(pid == 0 for pid, _ in prog) and not any(l in ("deadlock", "inherent-deadlock") for l in labels) and not opts \
+            and not name.startswith("lines"):
         for rep in range(2):
             lab = free_run(prog)
             res["freerun_executions"] = res.get("freerun_executions", 0) + 1
